@@ -8,6 +8,7 @@ CONSTANTS
   DEV_AccumulatingRoot = FALSE
     DEV_NoTruncate = FALSE
   DEV_NetworkCached = FALSE
+  DEV_FailedWriteKeepsDoc = FALSE
 VIEW View
 PROPERTY PropOwnInputs
 INVARIANT InvFiles
